@@ -53,6 +53,44 @@ func spareNode(n *sbom.Node) {
 	}
 }
 
+// emptyPresent turns a random subset of a node's collections into present-but-empty ones (an allocated map without
+// entries, a slice of length 0 with room to grow) - what sbom.NewNode() and decoders hand out. Sharing such a
+// collection between a copy and its source shows only on the first insert.
+func emptyPresent(r *rand.Rand, n *sbom.Node) {
+	if r.Intn(2) == 0 {
+		n.Hashes = map[int32]string{}
+	}
+	if r.Intn(2) == 0 {
+		n.Identifiers = map[int32]string{}
+	}
+	for _, er := range n.ExternalReferences {
+		if r.Intn(2) == 0 {
+			er.Hashes = map[int32]string{}
+		}
+	}
+	if r.Intn(3) == 0 {
+		n.Licenses = make([]string, 0, 4)
+	}
+	if r.Intn(3) == 0 {
+		n.Attribution = make([]string, 0, 4)
+	}
+	if r.Intn(3) == 0 {
+		n.FileTypes = make([]string, 0, 4)
+	}
+	if r.Intn(3) == 0 {
+		n.PrimaryPurpose = make([]sbom.Purpose, 0, 4)
+	}
+	if r.Intn(3) == 0 {
+		n.Suppliers = make([]*sbom.Person, 0, 4)
+	}
+	if r.Intn(3) == 0 {
+		n.Originators = make([]*sbom.Person, 0, 4)
+	}
+	if r.Intn(4) == 0 {
+		n.ExternalReferences = make([]*sbom.ExternalReference, 0, 4)
+	}
+}
+
 func spareList(nl *sbom.NodeList) *sbom.NodeList {
 	nl.Nodes, nl.Edges, nl.RootElements = spare(nl.Nodes), spare(nl.Edges), spare(nl.RootElements)
 	for _, e := range nl.Edges {
@@ -67,7 +105,11 @@ func spareList(nl *sbom.NodeList) *sbom.NodeList {
 func fullNodeList(r *rand.Rand, ids []string, o gen.PopOpts) *sbom.NodeList {
 	nl := &sbom.NodeList{}
 	for _, id := range ids {
-		nl.Nodes = append(nl.Nodes, gen.Node(r, id, o))
+		nd := gen.Node(r, id, o)
+		if r.Intn(4) == 0 {
+			emptyPresent(r, nd)
+		}
+		nl.Nodes = append(nl.Nodes, nd)
 	}
 	for i, id := range ids {
 		nl.Edges = append(nl.Edges, &sbom.Edge{From: id, Type: sbom.Edge_contains, To: []string{ids[(i+1)%len(ids)], ids[(i+2)%len(ids)]}})
@@ -116,7 +158,14 @@ func c12RawList(r *rand.Rand, ids []string, o gen.PopOpts) *sbom.NodeList {
 }
 
 var c12Types = []c12Type{
-	{"Node", func(r *rand.Rand) proto.Message { n := gen.Node(r, "n", fullPop()); spareNode(n); return n },
+	{"Node", func(r *rand.Rand) proto.Message {
+		n := gen.Node(r, "n", fullPop())
+		spareNode(n)
+		if r.Intn(3) == 0 {
+			emptyPresent(r, n)
+		}
+		return n
+	},
 		func(m proto.Message) proto.Message { return m.(*sbom.Node).Copy() },
 		func(a, b proto.Message) (bool, bool) { return a.(*sbom.Node).Equal(b.(*sbom.Node)), true }},
 	{"Edge", func(r *rand.Rand) proto.Message {
@@ -134,6 +183,9 @@ var c12Types = []c12Type{
 	{"ExternalReference", func(r *rand.Rand) proto.Message {
 		p := &sbom.ExternalReference{}
 		gen.Populate(r, p.ProtoReflect(), fullPop())
+		if r.Intn(3) == 0 {
+			p.Hashes = map[int32]string{}
+		}
 		return p
 	},
 		func(m proto.Message) proto.Message { return m.(*sbom.ExternalReference).Copy() },
